@@ -36,6 +36,7 @@ Hypotheses of the `_partial` theorems = exactly the excluded regions:
 import Gossamer.Lib.C20SpecEq
 import Gossamer.Lib.C20BitfieldWeight
 import Gossamer.Lib.C20GraphSim
+import Gossamer.Lib.C20GraphRoundSim
 namespace Gossamer.C20
 
 variable {t : Tree} {ws : List Nat}
@@ -309,6 +310,46 @@ theorem C20_graph_ancestor_refines (h : t.WF) (key : Nat → Nat) (ws : List Nat
   have hs := bookSim_run key t ws ops
   rw [hs.cum]
   exact findAncestor_refines h (C20_graph_inv h key ws ops).1 key cond B hB
+
+/-- **`FindGHOST`** on the compressed graph of the round returns what `findGhost` returns on the uncompressed
+cumulative votes, with the right block number – through the breadth-first descent, `ghostFindMergePoint` and the
+`forceConstrain` path – for every condition that is monotone in the votes and met by at most one child of any
+block, and a current best block that (if it is in the graph) meets the condition.  Without the uniqueness
+hypothesis the two searches may follow different children (tie-break by insertion order vs. block index);
+`findGhostC_top` states what the compressed search returns without it.
+The supermajority conditions of both phases satisfy the hypotheses on tolerant vote sets. -/
+theorem C20_graph_ghost_refines (h : t.WF) (key : Nat → Nat) (ws : List Nat) (ops : List Op)
+    (cond : Mask → Bool) (hm : MonoCond cond) (hu : UniqChild t (run t ws ops).cum cond) (cur : Option Nat)
+    (hcur : ∀ b, cur = some b → b < t.size ∧
+      (inGraph (run t ws ops).cum b = true → cond ((run t ws ops).cum b) = true)) :
+    (runC key t ws ops).graph.findGhost key (t.size + 1) (pr t cur) cond =
+      pr t (findGhost t (run t ws ops).cum cur cond) := by
+  have hs := bookSim_run key t ws ops
+  rw [hs.cum] at hu hcur ⊢
+  exact findGhost_refines h (C20_graph_inv h key ws ops).1 key hm hu cur hcur
+
+/-- the hypotheses of `C20_graph_ghost_refines` hold for the supermajority condition of a tolerant phase -/
+theorem C20_graph_ghost_hyps (h : t.WF) (h0 : 0 < total ws) (ops : List Op) (ph : Bool)
+    (htol : tolerant ws ops ph = true) :
+    MonoCond (supermCond ws (run t ws ops).eqv ph) ∧
+    UniqChild t (run t ws ops).cum (supermCond ws (run t ws ops).eqv ph) :=
+  ⟨supermCond_mono ws _ ph, superm_uniqChild h h0 ops ph htol⟩
+
+/-- **The round on the real data structure**: after every valid, prevote-tolerant import history the round
+running on the compressed graph (`runC`, the structure whose dump the driver compares with the Go graph) holds the
+same prevote GHOST, finalized block and estimate as the model round, each with its block number – hence
+`C20_ghost_eq_spec_partial`, `C20_finalized_eq_spec_partial`, `C20_estimate_eq_spec_partial` apply to it. -/
+theorem C20_graph_round_refines (h : t.WF) (h0 : 0 < total ws) (key : Nat → Nat) (ops : List Op)
+    (hv : ValidOps t ops) (htol : tolerant ws ops false = true) :
+    (runC key t ws ops).ghost = pr t (run t ws ops).ghost ∧
+    (runC key t ws ops).fin = pr t (run t ws ops).fin ∧
+    (runC key t ws ops).est = pr t (run t ws ops).est ∧
+    (runC key t ws ops).ghost = pr t (specGhost t ws ops false) ∧
+    (runC key t ws ops).fin = pr t (specFinalized t ws ops) := by
+  have s := stateSim_run h h0 key ops hv htol
+  refine ⟨s.ghost, s.fin, s.est, ?_, ?_⟩
+  · rw [s.ghost, C20_ghost_eq_spec_partial h h0 ops hv htol]
+  · rw [s.fin, C20_finalized_eq_spec_partial h h0 ops hv htol]
 
 /-! ## the excluded regions are really excluded, and the hypotheses are satisfiable -/
 
